@@ -247,6 +247,12 @@ class Enc:
         if key in Enc._NAMED:
             return Enc._NAMED[key]
         Enc._NAMED[key] = None
+        lit = getattr(self.funcs, "const_lits", {}).get(name)
+        if lit and not re.match(r"^const (?:\w+::)+[A-Z]", lit):
+            v = self.const_term(lit)
+            if v is not None:
+                Enc._NAMED[key] = v
+                return v
         f = self.funcs.get("const " + name)
         if f is not None and self.glob.inline_depth < 3:
             try:
@@ -258,7 +264,7 @@ class Enc:
                     v = e.out_state[rets[0]].get("_0")
                     if v is not None:
                         v = z3.simplify(v)
-                        if z3.is_int_value(v):
+                        if z3.is_int_value(v) or z3.is_fp_value(v):
                             Enc._NAMED[key] = v
             except Exception:
                 pass
